@@ -361,11 +361,12 @@ class SimPool(cf.Executor):
     def _dispatch(self, w):
         s = self._sched
         t = self._queue.pop(0)
-        while t.future.cancelled() and self._queue:
+        while not t.future.set_running_or_notify_cancel():
+            t.done = True  # cancelled before it started: never runs
+            s.log.add(s.step, "cancelled", t.ordinal)
+            if not self._queue:
+                return
             t = self._queue.pop(0)
-        if not t.future.set_running_or_notify_cancel():
-            t.done = True
-            return
         w.task = t
         w.started = False
         if w.served >= 1:
